@@ -197,7 +197,7 @@ class Oracle:
     (finite systems: the whole system).  For infinite systems every term is repeated in all unit cells and kept if
     it lies completely inside the window."""
 
-    def __init__(self, ctx, lat, ref, n_cells=1, unit_cell=None):
+    def __init__(self, ctx, lat, ref, n_cells=1, unit_cell=None, window=None):
         """unit_cell: optional replacement of `lat.unit_cell` by twin sites (same operators, other basis order: the
         sites without charge conservation keep the standard, un-sorted local basis)"""
         self.ctx = ctx
@@ -206,7 +206,9 @@ class Oracle:
         self.n_cells = n_cells if ref.infinite else 1
         cell = list(lat.mps_sites()) if unit_cell is None else [unit_cell[row[-1]] for row in ref.order]
         self.cell = cell
-        self.sites = cell * self.n_cells
+        # window of MPS sites [first, last] (default: n_cells unit cells starting at site 0); terms completely inside it
+        self.first, self.last = window if window is not None else (0, len(cell) * self.n_cells - 1)
+        self.sites = [cell[i % len(cell)] for i in range(self.first, self.last + 1)]
         self.jw_gap = False  # a term with Jordan-Wigner operators on non-adjacent MPS sites (non-zero strength)
         self.W = len(self.sites)
         d = int(np.prod([s.dim for s in self.sites]))
@@ -217,14 +219,16 @@ class Oracle:
         self.onsite_mats = [np.zeros((s.dim, s.dim), dtype=object if ctx.symbolic else complex) for s in cell]
 
     def _translations(self, idx):
+        """positions (relative to the first site of the window) of all translates of a term that lie inside the window"""
+        f, l = self.first, self.last
         if not self.ref.infinite:
-            return [list(idx)] if all(0 <= i < self.W for i in idx) else []
+            return [[i - f for i in idx]] if all(f <= i <= l for i in idx) else []
         N = self.ref.N
         out = []
-        for k in range(-self.n_cells - 4, self.n_cells + 4):
+        for k in range(f // N - 6, l // N + 6):
             t = [i + k * N for i in idx]
-            if all(0 <= i < self.W for i in t):
-                out.append(t)
+            if all(f <= i <= l for i in t):
+                out.append([i - f for i in t])
         return out
 
     def add(self, strength, ops, plus_hc=False):
@@ -232,14 +236,14 @@ class Oracle:
         pos = [i for _, i in ops]
         if len(pos) > 1 and max(pos) - min(pos) > 1 and not self.jw_gap:
             sp = sorted(pos)
-            if any(needs_jw(self.sites[i % self.ref.N], n) for n, i in ops) and any(b - a > 1 for a, b in zip(sp, sp[1:])) \
+            if any(needs_jw(self.cell[i % self.ref.N], n) for n, i in ops) and any(b - a > 1 for a, b in zip(sp, sp[1:])) \
                     and bool(strength != 0):
                 self.jw_gap = True
         if len(pos) > 1 and max(pos) - min(pos) > self.max_range and bool(strength != 0):
             self.max_range = max(pos) - min(pos)
         if len(pos) == 1:
             i = pos[0] % self.ref.N
-            o = strength * op_matrix(self.sites[i], ops[0][0])
+            o = strength * op_matrix(self.cell[i], ops[0][0])
             self.onsite_mats[i] = self.onsite_mats[i] + o + (dagger(o) if plus_hc else 0)
         for t in self._translations(pos):
             m = product_at(self.sites, [(name, i) for (name, _), i in zip(ops, t)])
@@ -280,14 +284,15 @@ class Oracle:
         S = list(range(N)) if subsites is None else list(subsites)
         if len(S) > 1 and bool(strength != 0):
             self.max_range = max(self.max_range, 2)  # long range
-            if len(S) > 2 and needs_jw(self.sites[S[0]], op_i):
+            if len(S) > 2 and needs_jw(self.cell[S[0]], op_i):
                 self.jw_gap = True
         allS = []
-        for k in range(self.n_cells):
-            allS += [s + k * N for s in S]
+        cells = range(self.first // N - 1, self.last // N + 2) if self.ref.infinite else [0]
+        for k in cells:
+            allS += [s + k * N for s in S if self.first <= s + k * N <= self.last]
         for a in range(len(allS)):
             for b in range(a + 1, len(allS)):
-                m = product_at(self.sites, [(op_i, allS[a]), (op_j, allS[b])])
+                m = product_at(self.sites, [(op_i, allS[a] - self.first), (op_j, allS[b] - self.first)])
                 term = (strength * lam**(b - a)) * m
                 self.H = self.H + term
                 if plus_hc:
